@@ -312,17 +312,30 @@ class MailboxData(MailboxDataInterface[Message]):
             async with UidList.with_write(self._path) as uidl:
                 fields = {'E': email_id.value.decode('ascii'),
                           'T': thread_id.value.decode('ascii')}
-                new_rec = Record(uidl.next_uid, fields, filename)
-                uidl.next_uid += 1
-                uidl.set(new_rec)
+                new_rec = self._assign_uid(uidl, key, fields, filename)
         except BaseException:
             # no UID was assigned, do not leave the file behind
             with suppress(KeyError, OSError):
                 maildir.remove(key)
             raise
         return Message.from_maildir(
-            new_rec.uid, maildir_msg, maildir, key, email_id, thread_id,
-            self.maildir_flags)
+            new_rec.uid, maildir_msg, maildir, key,
+            self._get_object_id(new_rec, 'E'),
+            self._get_object_id(new_rec, 'T'), self.maildir_flags)
+
+    @classmethod
+    def _assign_uid(cls, uidl: UidList, key: str, fields: dict[str, str],
+                    filename: str) -> Record:
+        # the file is in place before the UID list is locked: another
+        # session, thread or process that looked in between has found a
+        # file without UID and given it one, there must not be a second
+        for rec in uidl.records:
+            if rec.key == key:
+                return rec
+        new_rec = Record(uidl.next_uid, fields, filename)
+        uidl.next_uid += 1
+        uidl.set(new_rec)
+        return new_rec
 
     async def copy(self, uid: int, destination: MailboxData, *,
                    recent: bool = False) -> int | None:
@@ -341,9 +354,8 @@ class MailboxData(MailboxDataInterface[Message]):
             dest_filename = dest_key + ':' + copy_msg.get_info()
         try:
             async with UidList.with_write(destination._path) as uidl:
-                new_rec = Record(uidl.next_uid, record.fields, dest_filename)
-                uidl.next_uid += 1
-                uidl.set(new_rec)
+                new_rec = self._assign_uid(uidl, dest_key, record.fields,
+                                           dest_filename)
         except BaseException:
             # no UID was assigned, do not leave the file behind
             with suppress(KeyError, OSError):
